@@ -31,44 +31,59 @@ func TestVerifC06Jump(t *testing.T) {
 		shard, _ = strconv.Atoi(p[0])
 		shards, _ = strconv.Atoi(p[1])
 	}
-	var lo, hi uint64
 	maxN := int32(8)
 	space := ""
+	// the key space is dealt in 64 blocks of 2^26 keys; thorough takes all of them, quick takes
+	// 16 (a quarter of all keys), which ones is selected by the seed — the seed selects a fully
+	// enumerated sub-space, never a sample within it
+	var blocks []uint64
 	if vres.Thorough() {
-		lo, hi = 0, 1<<32
+		for b := uint64(0); b < 64; b++ {
+			blocks = append(blocks, b)
+		}
 		maxN = 16
 		space = "all 2^32 keys x n=1..16"
 	} else {
-		// one 2^26 block selected by the seed (the seed selects which fully enumerated
-		// sub-space is taken, never a sample within it)
-		block := uint64(vres.Seed()) % 64
-		lo, hi = block<<26, (block+1)<<26
-		space = fmt.Sprintf("all keys of block %d of 64 (2^26 keys) x n=1..8", block)
+		first := uint64(vres.Seed()) % 4
+		for b := first; b < 64; b += 4 {
+			blocks = append(blocks, b)
+		}
+		space = fmt.Sprintf("all keys of 16 of the 64 blocks of 2^26 keys (blocks %d, %d, ... step 4: 2^30 keys) x n=1..8", first, first+4)
 	}
-	span := (hi - lo) / uint64(shards)
-	a, b := lo+span*uint64(shard), lo+span*uint64(shard+1)
-	if shard == shards-1 {
-		b = hi
+	type rng struct{ a, b uint64 }
+	var mine []rng
+	for i, blk := range blocks {
+		if i%shards == shard {
+			mine = append(mine, rng{blk << 26, (blk + 1) << 26})
+		}
 	}
+	if len(mine) == 0 {
+		return
+	}
+	a := mine[0].a
 	var evals int64
 	moved := make([]int64, maxN+2)
-	for k := a; k < b; k++ {
-		prev := jumpHash(k, 1)
-		if prev != 0 {
-			r.Violate("C06/jump/out-of-range", fmt.Sprintf("jumpHash(%d,1) = %d", k, prev), 1, map[string]interface{}{"key": k, "n": 1})
-		}
-		for n := int32(2); n <= maxN+1; n++ {
-			h := jumpHash(k, n)
-			evals++
-			if h < 0 || h >= n {
-				r.Violate("C06/jump/out-of-range", fmt.Sprintf("jumpHash(%d,%d) = %d is not a bucket", k, n, h), int(n), map[string]interface{}{"key": k, "n": n})
-			} else if h != prev && h != n-1 {
-				r.Violate("C06/jump/moved-to-an-old-bucket", fmt.Sprintf("jumpHash(%d,%d) = %d but jumpHash(%d,%d) = %d: growing the pool moved the key to a bucket that is not the new one", k, n-1, prev, k, n, h), int(n), map[string]interface{}{"key": k, "n": n})
+	var keys uint64
+	for _, rg := range mine {
+		for k := rg.a; k < rg.b; k++ {
+			keys++
+			prev := jumpHash(k, 1)
+			if prev != 0 {
+				r.Violate("C06/jump/out-of-range", fmt.Sprintf("jumpHash(%d,1) = %d", k, prev), 1, map[string]interface{}{"key": k, "n": 1})
 			}
-			if h != prev {
-				moved[n]++
+			for n := int32(2); n <= maxN+1; n++ {
+				h := jumpHash(k, n)
+				evals++
+				if h < 0 || h >= n {
+					r.Violate("C06/jump/out-of-range", fmt.Sprintf("jumpHash(%d,%d) = %d is not a bucket", k, n, h), int(n), map[string]interface{}{"key": k, "n": n})
+				} else if h != prev && h != n-1 {
+					r.Violate("C06/jump/moved-to-an-old-bucket", fmt.Sprintf("jumpHash(%d,%d) = %d but jumpHash(%d,%d) = %d: growing the pool moved the key to a bucket that is not the new one", k, n-1, prev, k, n, h), int(n), map[string]interface{}{"key": k, "n": n})
+				}
+				if h != prev {
+					moved[n]++
+				}
+				prev = h
 			}
-			prev = h
 		}
 	}
 	distinct := int64(0)
@@ -77,7 +92,7 @@ func TestVerifC06Jump(t *testing.T) {
 			distinct++
 		}
 	}
-	r.AddScenario(vres.Scenario{Name: "jump-hash-exhaustive", Engine: "H", Executions: evals, States: int64(b - a), Transitions: evals, Outcomes: int(distinct),
+	r.AddScenario(vres.Scenario{Name: "jump-hash-exhaustive", Engine: "H", Executions: evals, States: int64(keys), Transitions: evals, Outcomes: int(distinct),
 		Bound: space, Exhaustive: true, Sample: map[string]interface{}{"key": a, "buckets_n1..": func() []int32 {
 			var o []int32
 			for n := int32(1); n <= maxN; n++ {
